@@ -724,6 +724,14 @@ SPEC = {
              "nontrivial": lambda s: sum(v for k, v in s["hist"].items() if k.startswith("note epctl")) >= 2},
             {"name": "io_asan", "harness": "io", "model": None, "build": build_io_asan, "gen": gen_asan,
              "post": post_asan, "ok_status": ("OK", "ASAN", "SEGV")},
+            # "for every valid descriptor" / "what the plain call may return": descriptors at the top of
+            # the descriptor range and fcntl commands with pointer arguments (oracle-only part)
+            {"name": "io-extremes", "harness": "iocap", "model": None, "runtime": True,
+             "gen": lambda rng, tier: [{"args": [m], "timeout": 300,
+                                        "env": {"VR_SEED": rng.randrange(1, 1 << 30), "VR_SCHED": rng.choice(["rand", "rr"]),
+                                                "VR_HANG": 3000000, "VR_BUDGET": 50000000}}
+                                       for m in ("ptr", "high") for _ in range(2 if tier != "thorough" else 10)],
+             "post": vlib.oracle_note, "ok_status": ("OK", "SKIP")},
         ],
         "rule": "cases = (scenario kind, kernel objects, per-fiber op script, 1-3 kernel threads, scheduler kind+seed) from VERIF_SEED; distinct = different (args, sha1 of the access sequence); non-trivial = at least one fiber parked in fiber_wait_for_event (an epoll registration besides the timer's)",
         "trusted_base": [
